@@ -14,7 +14,12 @@ HIST = {
              [("hist_multi.cpp", []), ("hist_weighted.cpp", [])],
 }
 
-ENGINES = {"hist": HIST}
+REJECT = {
+    "name": "reject",
+    "units": [("reject_main.cpp", []), ("reject_other.cpp", [])] + [("reject_simple.cpp", ["-DVK_LABEL=%d" % k]) for k in (0, 1, 5, 6)],
+}
+
+ENGINES = {"hist": HIST, "reject": REJECT}
 
 ASSUME_COMMON = [
     "the g++ 12 / libstdc++ toolchain, AddressSanitizer and UBSan report what they are documented to report",
@@ -97,16 +102,48 @@ def run_hist(prop, tier, seed):
     c = res.counters
     coverage = {
         "evaluations": int(cases),
-        "distinct_nontrivial": int(c.get("distinct_cases", 0)),
+        "distinct_nontrivial": res.n_distinct(),
         "rule": plan["rule"],
         "samples": sample_list(res.samples),
         "api_calls_executed": c.get("calls_total", 0),
-        "distinct_model_states_visited_sum_over_shards": c.get("distinct_states", 0),
+        "distinct_model_states_visited": res.n_states(),
         "counters": {k: v for k, v in sorted(c.items())},
         "build": "g++ -O1 -fsanitize=address,undefined -fno-sanitize-recover=all -D_GLIBCXX_ASSERTIONS",
         "exhaustive": False,
     }
     return V.conclude(prop, tier, seed, "exploration", res, coverage, ASSUME_COMMON, plan["floors"], t0)
+
+
+def run_c07(prop, tier, seed):
+    t0 = time.time()
+    binary = V.build_engine(REJECT, "asan")
+    # 12 classes x 8 state variants per round
+    cases = 12 * 8 * (6 if tier == "quick" else 250)
+    res = V.run_sharded(prop, binary, [], cases, seed, tier, V.NCPU, 900 if tier == "quick" else 7200, replay_dir(prop), tag="reject",
+                        isolate_args=["--x-isolate", "1"])
+    c = res.counters
+    coverage = {
+        "evaluations": int(c.get("rejected_out_of_range_cells_executed", 0) + c.get("rejected_invalid_argument_cells_executed", 0)),
+        "distinct_nontrivial": res.n_states(),
+        "rule": "fault enumeration: {12 class instantiations: Labeled(Un)DirectedGraph<NoLabel|int|string|struct>, both multigraphs, both weighted graphs} x "
+                "{every public member / subgraph extraction / path search taking a vertex index} x {first, second, both, both-equal argument position} x "
+                "{size, size+1, UINT_MAX} x {every flag combination incl. force=true and defaulted flags}, each applied in 8 kinds of graph state "
+                "(size 0, 1, 1 with loop, 3 empty, random non-empty, after a removal) with valid calls interleaved; plus resize(smaller), unforced setEdgeLabel / "
+                "getEdgeLabel / getEdgeWeight on a missing edge. A cell is distinct by (class, entry, position, value, flags); distinct_nontrivial counts distinct cells. "
+                "Oracle per cell: exact exception type, full state snapshot identical, graph == copy taken before; a cell that kills the process is "
+                "re-run in a forked child and reported with its tuple",
+        "samples": sample_list(res.samples),
+        "distinct_graph_states": res.n_distinct(),
+        "counters": {k: v for k, v in sorted(c.items())},
+        "build": "g++ -O1 -fsanitize=address,undefined -fno-sanitize-recover=all -D_GLIBCXX_ASSERTIONS (any vector::operator[] past the end aborts)",
+        "exhaustive": True,
+    }
+    floors = {"rejected_out_of_range_cells_executed": 50000, "rejected_invalid_argument_cells_executed": 500}
+    if res.n_states() < 1500 and not res.viols:
+        res.inconclusive = res.inconclusive or "only %d distinct cells executed" % res.n_states()
+    return V.conclude(prop, tier, seed, "fault_enumeration", res, coverage, ASSUME_COMMON[:1] + [
+        "out-of-bounds accesses are observable because _GLIBCXX_ASSERTIONS bounds-checks every std::vector::operator[] and ASan red-zones the rest",
+        "the cell list in harness/reject_*.cpp was written from the public headers; an entry point added later is not covered until it is listed"], floors, t0)
 
 
 TITLES = {}
@@ -117,6 +154,9 @@ for line in open(os.path.join(V.VERIF, "properties.jsonl")):
 PROPS = {}
 for p in HIST_PLAN:
     PROPS[p] = {"title": TITLES[p], "run": run_hist, "engines": [("hist", "asan")]}
+
+
+PROPS["C07"] = {"title": TITLES["C07"], "run": run_c07, "engines": [("reject", "asan")]}
 
 
 def build_all():
